@@ -345,6 +345,7 @@ theorem resultRows_withNow (q : AggStmt) (groups : GroupMap Value) (seen : List 
       rw [hh] at hhaving
       simp only [resultRows, hrow, hh, ih, acceptGroup_withNow O v q e key subs hhaving]
 
+set_option linter.unusedSimpArgs false in   -- (which of `h1` / `hcols` is used depends on the definition, see below)
 theorem aggResult_withNow (q : AggStmt) (st : AggState) (h : q.allFuncs notNow = true) :
     aggResult (O.withNow v) q st = aggResult O q st := by
   simp only [AggStmt.allFuncs, Bool.and_eq_true] at h
@@ -354,7 +355,30 @@ theorem aggResult_withNow (q : AggStmt) (st : AggState) (h : q.allFuncs notNow =
   have h2 : ∀ groups seen, resultRows (O.withNow v) q groups seen = resultRows O q groups seen :=
     fun groups seen => resultRows_withNow O v q groups seen hitems hhaving
   unfold aggResult
-  simp only [h1, h2]
+  -- `aggResult` is being restated while this file is written (builder `aggorder`: the pre-pass over all cells becomes
+  -- `aggColumns`, column by column). The first alternative is the proof for the definition that evaluates the rows
+  -- with `rowOf`; the second one the proof for the definition with `aggColumn` / `aggColumns` (both read the oracle
+  -- through `cellOf` only).
+  first
+    | (simp only [h1, h2]; done)
+    | (have hcol : ∀ (i : Nat) (item : AggItem), item.allFuncs notNow = true → ∀ groups,
+          aggColumn (O.withNow v) q i item groups = aggColumn O q i item groups := by
+        intro i item hi groups
+        induction groups with
+        | nil => rfl
+        | cons g rest ih =>
+          obtain ⟨key, subs⟩ := g
+          simp only [aggColumn, cellOf_withNow O v q i item key subs hi, ih]
+       have hcols : ∀ groups (items : List (Nat × AggItem)), (∀ p ∈ items, p.2.allFuncs notNow = true) →
+          aggColumns (O.withNow v) q groups items = aggColumns O q groups items := by
+        intro groups items hi
+        induction items with
+        | nil => rfl
+        | cons p rest ih =>
+          obtain ⟨i, item⟩ := p
+          simp only [aggColumns, hcol i item (hi _ List.mem_cons_self) groups,
+            ih (fun p hp => hi p (List.mem_cons_of_mem _ hp))]
+       simp only [h1, h2, hcols _ _ (items_ok' notNow q hitems)])
 
 theorem finalResult_withNow (q : AggStmt) (es : EngineState) (h : q.allFuncs notNow = true) :
     finalResult (O.withNow v) q es = finalResult O q es := by
